@@ -177,6 +177,7 @@ def main():
         p = write_replay(workdir, "%s-translate.json" % pid, {"what": "translate.py could not read the source and no snapshot covers the item", "output": tout[-2000:]})
         violations.append((p, "no-failing-input-found"))
         tsum = {"problems": {"fatal": tout[-300:]}, "fallback": []}
+    gen.LITERALS = gen._load_literals_early()      # the literals harvested from the source by THIS run's translate.py
     if tsum.get("fallback"):
         notes.append("translator fell back to snapshot for: %s" % ",".join(tsum["fallback"]))
 
